@@ -214,6 +214,22 @@ func runC04(c *Ctx) {
 			run("decode", bb, fmt.Sprintf("file %d, bit %d flipped", i, bit))
 		}
 	}
+	// a valid file cut between two records (nothing of it is malformed, only the
+	// rest and the CRC are missing): Decode and CheckIntegrity must agree that it is not a file
+	for i, b := range pool {
+		if i%3 != 0 || len(b) > 4000 {
+			continue
+		}
+		ends := recordBoundaries(b)
+		for k := 0; k < 3 && len(ends) > 3; k++ {
+			cut := ends[1+rng.Intn(len(ends)-2)]
+			if cut >= len(b)-2 {
+				continue
+			}
+			run("decode", b[:cut], fmt.Sprintf("valid file %d cut at the record boundary %d", i, cut))
+			run("integrity", b[:cut], fmt.Sprintf("valid file %d cut at the record boundary %d", i, cut))
+		}
+	}
 	// header matrix: a valid body behind header variants, file CRC recomputed
 	body := pool[0]
 	hs0 := int(body[0])
